@@ -344,4 +344,29 @@ theorem nu_connect {env : Env} {c' : Conn} {o : Out} (h : connect env Conn.new =
   simp only [connect, Conn.new] at h
   exact (nu_tickAction h (by simp)).1
 
+theorem nu_send {env : Env} {c c' : Conn} {d : Bytes} {v : Bool} {r : SendRes} {o : Out}
+    (h : send env c d v = .ok (c', r, o)) : c'.state ≠ .unconnected := by
+  unfold send at h
+  split at h
+  · rename_i t on _
+    cases h1 : on.send cfg env.now d v with
+    | error e => simp [h1] at h
+    | ok w =>
+      obtain ⟨o1, r1, fl⟩ := w
+      simp only [h1] at h
+      cases hs : emit (List.map (ofFlushed t) fl) with
+      | error e => simp [hs] at h
+      | ok ps => simp [hs] at h; rw [← h.1]; simp
+  · simp at h
+
+theorem nu_flush {env : Env} {c c' : Conn} {o : Out} (h : flush env c = .ok (c', o)) :
+    c'.state ≠ .unconnected := by
+  unfold flush at h
+  split at h
+  · rename_i t on _
+    cases hs : emit (List.map (ofFlushed t) on.flush.2) with
+    | error e => simp [hs] at h
+    | ok ps => simp [hs] at h; rw [← h.1]; simp
+  · simp at h
+
 end Tw.NetC01
